@@ -393,7 +393,7 @@ Fixpoint extract (fix_and : bool) (c : cond) (allow : bool) : option (bool * sop
     match extract fix_and a false, extract fix_and b false with
     | Some (n1, t1, c1), Some (n2, t2, c2) =>
       if Bool.eqb n1 n2 && is_common t1 t2
-      then if (if fix_and then negb n1 else true) then Some (n1, t1, c1 ++ c2) else None
+      then if negb n1 then Some (n1, t1, c1 ++ c2) else None
       else None
     | _, _ => None
     end
